@@ -76,10 +76,12 @@ KINDS = {
     "defpar": "ALTER TABLE {T} ADD CONSTRAINT d8 DEFAULT ((0)) FOR a;",
     # an added column that carries NOT NULL: inside an ALTER the word NULL is not lexed as the keyword (known finding)
     "addnn": "ALTER TABLE {T} ADD d int NOT NULL;",
+    # pg_dump's way of giving a serial column its default: taken for a SQL Server column re-definition "a <type SET>" (known finding)
+    "pgsetdef": "ALTER TABLE ONLY {T} ALTER COLUMN a SET DEFAULT 5;",
     "fknc": "ALTER TABLE {T} ADD FOREIGN KEY (a, c) REFERENCES s9.o;",
     "fk2w": "ALTER TABLE {T} ADD CONSTRAINT fk3 FOREIGN KEY (c) REFERENCES s9.o (y) ON DELETE SET NULL;",
 }
-KF_KINDS = {"fk2w", "defcall", "defpar", "addnn"}  # kinds with an open known finding: enumerated at depth 1 only (they would mask their partners)
+KF_KINDS = {"fk2w", "defcall", "defpar", "addnn", "pgsetdef"}  # kinds with an open known finding: enumerated at depth 1 only (they would mask their partners)
 MODES = ["sql", "bigquery"]
 OTHER_MODES = ["redshift", "spark_sql", "mysql", "mssql", "databricks", "sqlite", "vertics", "ibm_db2", "postgres", "oracle", "hql", "snowflake", "athena"]
 D3Q_KINDS = ["add", "ifex", "dropd", "rend", "drop", "rename", "fk1", "modcol", "fkbb", "fkd", "modtxt", "defb"]
@@ -179,7 +181,7 @@ def gen_cases(tier):
 # ------------------------------------------------------------------ reference model
 
 def base_model():
-    return {"cols": [["a", None, None, False], ["b", 5, None, False], ["c", None, None, False]],  # name, size, default, unique
+    return {"cols": [["a", None, None, False, "int"], ["b", 5, None, False, "varchar"], ["c", None, None, False, "int"]],  # name, size, default, unique, type
             "alter": {}, "index": []}
 
 
@@ -192,7 +194,7 @@ def apply(m, op):
     if k in ("add", "ifex", "addnn"):
         new = "e" if k == "ifex" else "d"
         if new not in names:
-            cols.append([new, None, None, False])
+            cols.append([new, None, None, False, "int"])
     elif k in ("drop", "dropd"):
         x = nm(b) if k == "drop" else "d"
         if x in names:
@@ -204,7 +206,11 @@ def apply(m, op):
         A.setdefault("renamed_columns", []).append({"from": x, "to": to})
     elif k in ("modtxt", "alttxt"):
         if nm(b) in names:
-            cols[names.index(nm(b))] = [b, None, None, False]
+            cols[names.index(nm(b))] = [b, None, None, False, "text" if k == "modtxt" else "bigint"]
+    elif k == "pgsetdef":
+        for c in cols:
+            if c[0] == "a":
+                c[2] = "5"
     elif k == "defb":
         A.setdefault("defaults", []).append({"constraint_name": "d3", "columns": ["b"], "value": "7"})
         for c in cols:
@@ -213,7 +219,7 @@ def apply(m, op):
     elif k in ("modcol", "mod", "altcol"):
         if nm(b) in names:
             i = names.index(nm(b))
-            cols[i] = [b, 50, None, False]
+            cols[i] = [b, 50, None, False, "varchar"]
     elif k == "pk":
         A.setdefault("primary_keys", []).append({"constraint_name": None, "columns": ["a"]})
     elif k == "uq1":
@@ -261,7 +267,7 @@ def apply(m, op):
 def observe(t):
     """observables of a real table entry, in the model's vocabulary"""
     al = t.get("alter", {})
-    o = {"cols": [[c.get("name"), c.get("size"), None if c.get("default") is None else str(c.get("default")), c.get("unique")] for c in t["columns"]],
+    o = {"cols": [[c.get("name"), c.get("size"), None if c.get("default") is None else str(c.get("default")), c.get("unique"), c.get("type")] for c in t["columns"]],
          "alter": {}, "index": []}
     for key in ("primary_keys", "uniques", "checks", "renamed_columns"):
         if key in al:
@@ -304,6 +310,8 @@ def features(case):
             f.append("alter-default:call-or-parenthesised-value")
         if op[0] == "addnn":
             f.append("alter-add:not-null")
+        if op[0] == "pgsetdef":
+            f.append("alter-column:set-default")
     return sorted(set(f))
 
 
